@@ -252,6 +252,35 @@ theorem ibaq_count_eq (parse : ParseId) (lines : List Str) (p : Params) (r : Enz
         subst this
         rw [← hkeys]; exact hk
 
+/-- "… for every digestion parameter set including several proteases": over several files and parameter sets the
+    iBAQ number of a protein is the number of DISTINCT peptides that any (file, parameter set) job lists for it
+    under the iBAQ settings — a peptide produced by two proteases counts once (repaired counting) -/
+theorem ibaq_count_union (parse : ParseId) (files : List (List Str)) (ps : List Params) (counts : List (Str × Nat))
+    (h : numIbaqPeptides parse files ps = .ok counts) (pid : Str) :
+    cnt counts pid =
+      (uniq ((jobs files (ps.map ibaqParams)).flatMap
+        (fun j => (jobKeys parse j).filter (fun k => decide (pid ∈ jobEntry parse j k))))).length := by
+  unfold numIbaqPeptides at h
+  split at h
+  · simp at h
+  · rename_i res hres
+    simp only [Except.ok.injEq] at h
+    subst h
+    unfold fromParams at hres
+    obtain ⟨hnd, hkeys⟩ := fromParamsGo_keys parse _ [] [] res hres (by simp [keys])
+    have hget := fromParamsGo_spec parse _ [] [] res hres
+    rw [cnt_numPeptides]
+    apply count_entries_eq res.1 hnd pid
+    intro k
+    rw [hkeys k, hget k]
+    simp only [keys, List.map_nil, List.not_mem_nil, false_or, get, List.nil_append, List.mem_flatMap,
+      List.mem_filter, decide_eq_true_eq]
+    constructor
+    · rintro ⟨j, hj, hk, hp⟩
+      exact ⟨⟨j, hj, hk⟩, ⟨j, hj, hp⟩⟩
+    · rintro ⟨_, ⟨j, hj, hp⟩⟩
+      exact ⟨j, hj, mem_jobKeys_of_mem_jobEntry parse j k pid hp, hp⟩
+
 /-- "a map written to a file reads back unchanged": for a map (distinct peptides, every peptide listing at least
     one protein — which is what the map builder produces) whose peptides are free of tab, quote, CR, LF and a
     byte-order mark and whose identifiers are additionally free of `;`, the `--peptide_protein_map` writer
